@@ -21,6 +21,8 @@ def parent(r):
 
 
 def read(regs, r):
+    if isinstance(r, int):
+        return r  # an immediate: masked by the consumer / by write()
     v = regs[parent(r)]
     if r in R8H:
         return (v >> 8) & 0xff
@@ -129,6 +131,36 @@ def model(mn, ops, regs):
         k = imm & (w - 1)
         v = read(regs, s)
         write(regs, d, ((v >> k) | (v << (w - k))) if k else v)
+    elif mn in ("shl", "sal", "shr", "sar", "ror", "rcr") and len(ops) == 2 and isinstance(ops[1], int):
+        w = REGW[ops[0]]
+        cnt = ops[1] & (63 if w == 64 else 31)
+        v = read(regs, ops[0])
+        if mn in ("shl", "sal"):
+            r = v << cnt
+        elif mn == "shr":
+            r = v >> cnt
+        elif mn == "sar":
+            r = sx(v, w) >> cnt
+        elif mn == "ror":
+            k = cnt % w
+            r = ((v >> k) | (v << (w - k))) if k else v
+        else:  # rcr with CF = 0 before: rotate the (w+1)-bit quantity CF:value
+            k = cnt % (w + 1)
+            t = v  # CF (0) is bit w
+            r = ((t >> k) | (t << (w + 1 - k))) & ((1 << (w + 1)) - 1) if k else t
+        write(regs, ops[0], r)
+    elif mn == "imul" and len(ops) == 3:
+        w = REGW[ops[0]]
+        write(regs, ops[0], sx(read(regs, ops[1]), w) * sx(ops[2], w))
+    elif mn in ("shld", "shrd") and len(ops) == 3 and isinstance(ops[2], int):
+        d, s_, c = ops
+        w = REGW[d]
+        cnt = c & (63 if w == 64 else 31)
+        if cnt >= w:
+            return False  # architecturally undefined
+        a, b = read(regs, d), read(regs, s_)
+        # count 0 leaves the value unchanged, but a 32-bit destination is still written (zero-extended): observed on hardware
+        write(regs, d, a if not cnt else (((a << cnt) | (b >> (w - cnt))) if mn == "shld" else ((a >> cnt) | (b << (w - cnt)))))
     else:
         return False
     return True
@@ -142,7 +174,7 @@ def program(case, rnd):
         return None
     if any(parent(r) == "rsp" for r in regs_used):
         return None
-    imm = case.get("imm") if mn == "rorx" else None
+    imm = case.get("imm") if (mn == "rorx" or case["fam"].startswith("imm_")) else None
     ops = regs_used + ([imm] if imm is not None else [])
     pars = []
     for r in regs_used:
